@@ -63,7 +63,7 @@ pub fn session(rng: &mut Rng) -> Generated {
         let a = rng.range(1, 50);
         let b = rng.range(1, 50);
         let times = rng.range(0, 3);
-        match rng.below(33) {
+        match rng.below(35) {
             0 => {
                 names.push("early-exit");
                 let limit = rng.range(0, 8);
@@ -539,6 +539,29 @@ pub fn session(rng: &mut Rng) -> Generated {
                          (list dn{t} dcount{t})",
                         t = t,
                         body = body
+                    ),
+                );
+            }
+            33 | 34 => {
+                // a parameterless procedure with internal definitions is activated several times;
+                // a continuation captured in an earlier activation is re-entered after a later
+                // activation has run: it resumes with the variables of its own activation
+                names.push("capture-in-parameterless-activation");
+                reentry = true;
+                p(
+                    &mut forms,
+                    &format!(
+                        "(define pks{t} '())
+                         (define pn{t} 0)
+                         (define (pmk{t}) (lambda () (define serial (+ 1 (length pks{t}))) (define mine (list 'mine serial)) (define v (call/cc (lambda (c) (set! pks{t} (append pks{t} (list c))) 'first))) (set! mine (cons v mine)) (list serial mine)))
+                         (define pthunk{t} (pmk{t}))
+                         (pthunk{t})
+                         (pthunk{t})
+                         (if (< pn{t} 2) (begin (set! pn{t} (+ pn{t} 1)) ((car pks{t}) (list 'again pn{t}))) 'stop)
+                         (pthunk{t})
+                         (if (< pn{t} 2) (begin (set! pn{t} (+ pn{t} 1)) ((car (cdr pks{t})) (list 'again pn{t}))) 'stop)
+                         (length pks{t})",
+                        t = t
                     ),
                 );
             }
